@@ -26,7 +26,29 @@ func (ex *Exec) intrinsic(caller *Frame, fn *ssa.Function, args []Value) (Value,
 	case "(*sync.Pool).Put":
 		ex.poolPut(args[0].(Pointer), args[1])
 		return nil, true
-	case "(*sync.Mutex).Lock", "(*sync.Mutex).Unlock", "(*sync.RWMutex).Lock", "(*sync.RWMutex).Unlock", "(*sync.RWMutex).RLock", "(*sync.RWMutex).RUnlock":
+	case "(*sync.Mutex).Lock", "(*sync.RWMutex).Lock":
+		if ex.conc != nil {
+			ex.mutexLock(args[0].(Pointer))
+		}
+		return nil, true
+	case "(*sync.Mutex).Unlock", "(*sync.RWMutex).Unlock":
+		if ex.conc != nil {
+			ex.mutexUnlock(args[0].(Pointer))
+		}
+		return nil, true
+	case "(*sync.WaitGroup).Add":
+		ex.wgAdd(args[0].(Pointer), ex.concInt(args[1]))
+		return nil, true
+	case "(*sync.WaitGroup).Done":
+		ex.wgAdd(args[0].(Pointer), -1)
+		return nil, true
+	case "(*sync.WaitGroup).Wait":
+		ex.wgWait(args[0].(Pointer))
+		return nil, true
+	case "(*sync.RWMutex).RLock", "(*sync.RWMutex).RUnlock":
+		if ex.conc != nil {
+			panic(unsupported("RWMutex read locks in concurrent mode"))
+		}
 		return nil, true
 	case "runtime.GOMAXPROCS":
 		return ts.Const(64, 4), true
@@ -105,6 +127,7 @@ func (ex *Exec) poolGet(caller *Frame, p Pointer) Value {
 		v := st[len(st)-1]
 		ex.pools[k] = st[:len(st)-1]
 		ex.setReleased(v, false)
+		ex.concPoolGet(k)
 		return v
 	}
 	// call p.New
@@ -135,6 +158,7 @@ func (ex *Exec) poolPut(p Pointer, v Value) {
 	k := ex.poolKey(p)
 	ex.pools[k] = append(ex.pools[k], v)
 	ex.setReleased(v, true)
+	ex.concPoolPut(k)
 }
 
 func (ex *Exec) setReleased(v Value, rel bool) {
@@ -354,6 +378,17 @@ func (ex *Exec) vfCall(caller *Frame, fn *ssa.Function, name string, args []Valu
 		v := ex.newInput(args[0].(string), 64, "int")
 		ex.assume(ts.Ult(v, n))
 		return ts.Const(64, ex.concretize(v))
+	case "vfJitter":
+		ex.schedPoint("jitter")
+		return nil
+	case "vfSettle":
+		return ts.Const(64, uint64(ex.settle()))
+	case "vfGoroutines":
+		n := ex.liveGoroutines()
+		if n > 0 {
+			ex.event("goroutines-alive", ex.conc.describe())
+		}
+		return ts.Const(64, uint64(n))
 	case "vfConc":
 		t := args[0].(*Term)
 		return ts.Const(t.w, ex.concretize(t))
